@@ -35,6 +35,12 @@ int                memio_ro_write_attempt = 0;
 struct memio_wlog  memio_log[MEMIO_LOGN];
 long               memio_nlog = 0;
 int                memio_overflow = 0;
+int                memio_guard_on = 0, memio_guard_violated = 0; /* C17: writes below memio_guard_below are flagged */
+long               memio_guard_below = 0;
+#if MEMIO_LOGDATA > 0
+unsigned char      memio_logdata[MEMIO_LOGDATA];
+long               memio_logdata_used = 0;
+#endif
 int                memio_sparse = 0; /* allow writes beyond MEMIO_DISK_SZ (not stored; read as zeros) */
 long               memio_short_amount = 0; /* bytes actually transferred by a failing fread/fwrite */
 
@@ -264,8 +270,15 @@ FN(fwrite)(const void *ptr, size_t size, size_t n, FILE *fp)
         memio_log[memio_nlog].file = s->file;
         memio_log[memio_nlog].off  = s->pos;
         memio_log[memio_nlog].len  = (long)put;
+#if MEMIO_LOGDATA > 0
+        memio_log[memio_nlog].doff = memio_logdata_used;
+        for (i = 0; i < put && memio_logdata_used < MEMIO_LOGDATA; i++)
+            memio_logdata[memio_logdata_used++] = src[i];
+#endif
         memio_nlog++;
     }
+    if (memio_guard_on && s->file == 0 && put > 0 && s->pos < memio_guard_below)
+        memio_guard_violated = 1;
     (void)k;
     for (i = 0; i < put; i++)
         if (s->pos + (long)i < MEMIO_DISK_SZ) /* sparse tail (memio_sparse): bytes beyond the model disk are not stored */
